@@ -318,103 +318,99 @@ macro_rules! c08_body {
 c08_q! {c08_iter_u8_fwd, iter, fwd, unsized, u8, mk_u8}
 c08_q! {c08_iter_u8_rev, iter, rev, unsized, u8, mk_u8}
 c08_q! {c08_iter_zst_fwd, iter, fwd, unsized, (), mk_unit}
-c08_q! {c08_iter_zst_rev, iter, rev, unsized, (), mk_unit} // tier=thorough
+c08_q! {c08_iter_zst_rev, iter, rev, unsized, (), mk_unit} // tier=quick
 c08_q! {c08_iter_copied_u8_fwd, iter_copied, fwd, unsized, u8, mk_u8}
-c08_q! {c08_iter_copied_u8_rev, iter_copied, rev, unsized, u8, mk_u8} // tier=thorough
-c08_q! {c08_iter_copied_zst_fwd, iter_copied, fwd, unsized, (), mk_unit} // tier=thorough
-c08_q! {c08_iter_copied_zst_rev, iter_copied, rev, unsized, (), mk_unit} // tier=thorough
+c08_q! {c08_iter_copied_u8_rev, iter_copied, rev, unsized, u8, mk_u8} // tier=quick
+c08_q! {c08_iter_copied_zst_fwd, iter_copied, fwd, unsized, (), mk_unit} // tier=quick
+c08_q! {c08_iter_copied_zst_rev, iter_copied, rev, unsized, (), mk_unit} // tier=quick
 c08_q! {c08_windows_u8_fwd, windows, fwd, sized, u8, mk_u8}
 c08_q! {c08_windows_u8_rev, windows, rev, sized, u8, mk_u8} // tier=thorough
-c08_q! {c08_windows_zst_fwd, windows, fwd, sized, (), mk_unit} // tier=thorough
-c08_q! {c08_windows_zst_rev, windows, rev, sized, (), mk_unit} // tier=thorough
+c08_q! {c08_windows_zst_fwd, windows, fwd, sized, (), mk_unit} // tier=quick
+c08_q! {c08_windows_zst_rev, windows, rev, sized, (), mk_unit} // tier=quick
 c08_q! {c08_chunks_u8_fwd, chunks, fwd, sized2, u8, mk_u8}
-c08_q! {c08_chunks_u8_rev, chunks, rev, sized2, u8, mk_u8} // tier=thorough
-c08_q! {c08_chunks_zst_fwd, chunks, fwd, sized2, (), mk_unit} // tier=thorough
-c08_q! {c08_chunks_zst_rev, chunks, rev, sized2, (), mk_unit} // tier=thorough
+c08_q! {c08_chunks_u8_rev, chunks, rev, sized2, u8, mk_u8} // tier=quick
+c08_q! {c08_chunks_zst_fwd, chunks, fwd, sized2, (), mk_unit} // tier=quick
+c08_q! {c08_chunks_zst_rev, chunks, rev, sized2, (), mk_unit} // tier=quick
 c08_q! {c08_chunks_n1_u8_fwd, chunks, fwd, size1, u8, mk_u8}
 c08_q! {c08_chunks_n1_u8_rev, chunks, rev, size1, u8, mk_u8} // tier=thorough
 c08_q! {c08_chunks_n1_zst_fwd, chunks, fwd, size1, (), mk_unit} // tier=thorough
 c08_q! {c08_chunks_n1_zst_rev, chunks, rev, size1, (), mk_unit} // tier=thorough
 c08_q! {c08_rchunks_u8_fwd, rchunks, fwd, sized2, u8, mk_u8}
-c08_q! {c08_rchunks_u8_rev, rchunks, rev, sized2, u8, mk_u8} // tier=thorough
-c08_q! {c08_rchunks_zst_fwd, rchunks, fwd, sized2, (), mk_unit} // tier=thorough
-c08_q! {c08_rchunks_zst_rev, rchunks, rev, sized2, (), mk_unit} // tier=thorough
+c08_q! {c08_rchunks_u8_rev, rchunks, rev, sized2, u8, mk_u8} // tier=quick
+c08_q! {c08_rchunks_zst_fwd, rchunks, fwd, sized2, (), mk_unit} // tier=quick
+c08_q! {c08_rchunks_zst_rev, rchunks, rev, sized2, (), mk_unit} // tier=quick
 c08_q! {c08_rchunks_n1_u8_fwd, rchunks, fwd, size1, u8, mk_u8} // tier=thorough
 c08_q! {c08_rchunks_n1_u8_rev, rchunks, rev, size1, u8, mk_u8} // tier=thorough
-c08_q! {c08_rchunks_n1_zst_fwd, rchunks, fwd, size1, (), mk_unit} // tier=thorough
-c08_q! {c08_rchunks_n1_zst_rev, rchunks, rev, size1, (), mk_unit} // tier=thorough
+c08_q! {c08_rchunks_n1_zst_fwd, rchunks, fwd, size1, (), mk_unit} // tier=quick
+c08_q! {c08_rchunks_n1_zst_rev, rchunks, rev, size1, (), mk_unit} // tier=quick
 c08_q! {c08_chunks_exact_u8_fwd, chunks_exact, fwd, sized2, u8, mk_u8}
-c08_q! {c08_chunks_exact_u8_rev, chunks_exact, rev, sized2, u8, mk_u8} // tier=thorough
-c08_q! {c08_chunks_exact_zst_fwd, chunks_exact, fwd, sized2, (), mk_unit} // tier=thorough
-c08_q! {c08_chunks_exact_zst_rev, chunks_exact, rev, sized2, (), mk_unit} // tier=thorough
-c08_q! {c08_chunks_exact_n1_u8_fwd, chunks_exact, fwd, size1, u8, mk_u8} // tier=thorough
-c08_q! {c08_chunks_exact_n1_u8_rev, chunks_exact, rev, size1, u8, mk_u8} // tier=thorough
-c08_q! {c08_chunks_exact_n1_zst_fwd, chunks_exact, fwd, size1, (), mk_unit} // tier=thorough
-c08_q! {c08_chunks_exact_n1_zst_rev, chunks_exact, rev, size1, (), mk_unit} // tier=thorough
+c08_q! {c08_chunks_exact_u8_rev, chunks_exact, rev, sized2, u8, mk_u8} // tier=quick
+c08_q! {c08_chunks_exact_zst_fwd, chunks_exact, fwd, sized2, (), mk_unit} // tier=quick
+c08_q! {c08_chunks_exact_zst_rev, chunks_exact, rev, sized2, (), mk_unit} // tier=quick
+c08_q! {c08_chunks_exact_n1_u8_fwd, chunks_exact, fwd, size1, u8, mk_u8} // tier=quick
+c08_q! {c08_chunks_exact_n1_u8_rev, chunks_exact, rev, size1, u8, mk_u8} // tier=quick
+c08_q! {c08_chunks_exact_n1_zst_fwd, chunks_exact, fwd, size1, (), mk_unit} // tier=quick
+c08_q! {c08_chunks_exact_n1_zst_rev, chunks_exact, rev, size1, (), mk_unit} // tier=quick
 c08_q! {c08_rchunks_exact_u8_fwd, rchunks_exact, fwd, sized2, u8, mk_u8}
-c08_q! {c08_rchunks_exact_u8_rev, rchunks_exact, rev, sized2, u8, mk_u8} // tier=thorough
-c08_q! {c08_rchunks_exact_zst_fwd, rchunks_exact, fwd, sized2, (), mk_unit} // tier=thorough
-c08_q! {c08_rchunks_exact_zst_rev, rchunks_exact, rev, sized2, (), mk_unit} // tier=thorough
-c08_q! {c08_rchunks_exact_n1_u8_fwd, rchunks_exact, fwd, size1, u8, mk_u8} // tier=thorough
-c08_q! {c08_rchunks_exact_n1_u8_rev, rchunks_exact, rev, size1, u8, mk_u8} // tier=thorough
-c08_q! {c08_rchunks_exact_n1_zst_fwd, rchunks_exact, fwd, size1, (), mk_unit} // tier=thorough
-c08_q! {c08_rchunks_exact_n1_zst_rev, rchunks_exact, rev, size1, (), mk_unit} // tier=thorough
-c08_q! {c08_array_chunks1_u8_fwd, array_chunks 1, fwd, unsized, u8, mk_u8} // tier=thorough
-c08_q! {c08_array_chunks1_u8_rev, array_chunks 1, rev, unsized, u8, mk_u8} // tier=thorough
+c08_q! {c08_rchunks_exact_u8_rev, rchunks_exact, rev, sized2, u8, mk_u8} // tier=quick
+c08_q! {c08_rchunks_exact_zst_fwd, rchunks_exact, fwd, sized2, (), mk_unit} // tier=quick
+c08_q! {c08_rchunks_exact_zst_rev, rchunks_exact, rev, sized2, (), mk_unit} // tier=quick
+c08_q! {c08_rchunks_exact_n1_u8_fwd, rchunks_exact, fwd, size1, u8, mk_u8} // tier=quick
+c08_q! {c08_rchunks_exact_n1_u8_rev, rchunks_exact, rev, size1, u8, mk_u8} // tier=quick
+c08_q! {c08_rchunks_exact_n1_zst_fwd, rchunks_exact, fwd, size1, (), mk_unit} // tier=quick
+c08_q! {c08_rchunks_exact_n1_zst_rev, rchunks_exact, rev, size1, (), mk_unit} // tier=quick
+c08_q! {c08_array_chunks1_u8_fwd, array_chunks 1, fwd, unsized, u8, mk_u8} // tier=quick
+c08_q! {c08_array_chunks1_u8_rev, array_chunks 1, rev, unsized, u8, mk_u8} // tier=quick
 c08_q! {c08_array_chunks2_u8_fwd, array_chunks 2, fwd, unsized, u8, mk_u8}
 c08_q! {c08_array_chunks2_u8_rev, array_chunks 2, rev, unsized, u8, mk_u8}
-c08_q! {c08_array_chunks2_zst_fwd, array_chunks 2, fwd, unsized, (), mk_unit} // tier=thorough
-c08_q! {c08_array_chunks2_zst_rev, array_chunks 2, rev, unsized, (), mk_unit} // tier=thorough
-c08_q! {c08_array_chunks3_u8_fwd, array_chunks 3, fwd, unsized, u8, mk_u8} // tier=thorough
-c08_q! {c08_array_chunks3_u8_rev, array_chunks 3, rev, unsized, u8, mk_u8} // tier=thorough
+c08_q! {c08_array_chunks2_zst_fwd, array_chunks 2, fwd, unsized, (), mk_unit} // tier=quick
+c08_q! {c08_array_chunks2_zst_rev, array_chunks 2, rev, unsized, (), mk_unit} // tier=quick
+c08_q! {c08_array_chunks3_u8_fwd, array_chunks 3, fwd, unsized, u8, mk_u8} // tier=quick
+c08_q! {c08_array_chunks3_u8_rev, array_chunks 3, rev, unsized, u8, mk_u8} // tier=quick
 
 // thorough tier: the three ways of stepping mixed in one walk, L = 6
-c08_tm! {c08_iter_u8_mix, iter, mix, unsized, u8, mk_u8}
-c08_tm! {c08_iter_copied_u8_mix, iter_copied, mix, unsized, u8, mk_u8}
+c08_tm! {c08_iter_u8_mix, iter, mix, unsized, u8, mk_u8} // tier=quick
+c08_tm! {c08_iter_copied_u8_mix, iter_copied, mix, unsized, u8, mk_u8} // tier=quick
 c08_tm! {c08_windows_u8_mix, windows, mix, sized, u8, mk_u8}
 c08_tm! {c08_chunks_u8_mix, chunks, mix, sized2, u8, mk_u8}
 c08_tm! {c08_chunks_n1_u8_mix, chunks, mix, size1, u8, mk_u8}
-c08_tm! {c08_rchunks_u8_mix, rchunks, mix, sized2, u8, mk_u8}
+c08_tm! {c08_rchunks_u8_mix, rchunks, mix, sized2, u8, mk_u8} // tier=quick
 c08_tm! {c08_rchunks_n1_u8_mix, rchunks, mix, size1, u8, mk_u8}
-c08_tm! {c08_chunks_exact_u8_mix, chunks_exact, mix, sized2, u8, mk_u8}
+c08_tm! {c08_chunks_exact_u8_mix, chunks_exact, mix, sized2, u8, mk_u8} // tier=quick
 c08_tm! {c08_chunks_exact_n1_u8_mix, chunks_exact, mix, size1, u8, mk_u8}
-c08_tm! {c08_rchunks_exact_u8_mix, rchunks_exact, mix, sized2, u8, mk_u8}
+c08_tm! {c08_rchunks_exact_u8_mix, rchunks_exact, mix, sized2, u8, mk_u8} // tier=quick
 c08_tm! {c08_rchunks_exact_n1_u8_mix, rchunks_exact, mix, size1, u8, mk_u8}
-c08_tm! {c08_array_chunks1_u8_mix, array_chunks 1, mix, unsized, u8, mk_u8}
-c08_tm! {c08_array_chunks2_u8_mix, array_chunks 2, mix, unsized, u8, mk_u8}
-c08_tm! {c08_array_chunks3_u8_mix, array_chunks 3, mix, unsized, u8, mk_u8}
+c08_tm! {c08_array_chunks1_u8_mix, array_chunks 1, mix, unsized, u8, mk_u8} // tier=quick
+c08_tm! {c08_array_chunks2_u8_mix, array_chunks 2, mix, unsized, u8, mk_u8} // tier=quick
+c08_tm! {c08_array_chunks3_u8_mix, array_chunks 3, mix, unsized, u8, mk_u8} // tier=quick
 c08_tm! {c08_chunks_zst_mix, chunks, mix, sized2, (), mk_unit}
-c08_tm! {c08_iter_zst_mix, iter, mix, unsized, (), mk_unit}
-
-// thorough tier: L = 8
-c08_t! {c08_iter_u8_fwd_big, iter, fwd, unsized, u8, mk_u8}
-c08_t! {c08_iter_u8_rev_big, iter, rev, unsized, u8, mk_u8}
-c08_t! {c08_iter_copied_u8_fwd_big, iter_copied, fwd, unsized, u8, mk_u8}
-c08_t! {c08_iter_copied_u8_rev_big, iter_copied, rev, unsized, u8, mk_u8}
+c08_tm! {c08_iter_zst_mix, iter, mix, unsized, (), mk_unit} // thorough tier: L = 8 tier=quick
+c08_t! {c08_iter_u8_fwd_big, iter, fwd, unsized, u8, mk_u8} // tier=quick
+c08_t! {c08_iter_u8_rev_big, iter, rev, unsized, u8, mk_u8} // tier=quick
+c08_t! {c08_iter_copied_u8_fwd_big, iter_copied, fwd, unsized, u8, mk_u8} // tier=quick
+c08_t! {c08_iter_copied_u8_rev_big, iter_copied, rev, unsized, u8, mk_u8} // tier=quick
 c08_t! {c08_windows_u8_fwd_big, windows, fwd, sized, u8, mk_u8}
 c08_t! {c08_windows_u8_rev_big, windows, rev, sized, u8, mk_u8}
 c08_t! {c08_chunks_u8_fwd_big, chunks, fwd, sized2, u8, mk_u8}
 c08_t! {c08_chunks_u8_rev_big, chunks, rev, sized2, u8, mk_u8}
 c08_t! {c08_chunks_n1_u8_fwd_big, chunks, fwd, size1, u8, mk_u8}
 c08_t! {c08_chunks_n1_u8_rev_big, chunks, rev, size1, u8, mk_u8}
-c08_t! {c08_rchunks_u8_fwd_big, rchunks, fwd, sized2, u8, mk_u8}
-c08_t! {c08_rchunks_u8_rev_big, rchunks, rev, sized2, u8, mk_u8}
+c08_t! {c08_rchunks_u8_fwd_big, rchunks, fwd, sized2, u8, mk_u8} // tier=quick
+c08_t! {c08_rchunks_u8_rev_big, rchunks, rev, sized2, u8, mk_u8} // tier=quick
 c08_t! {c08_rchunks_n1_u8_fwd_big, rchunks, fwd, size1, u8, mk_u8}
 c08_t! {c08_rchunks_n1_u8_rev_big, rchunks, rev, size1, u8, mk_u8}
-c08_t! {c08_chunks_exact_u8_fwd_big, chunks_exact, fwd, sized2, u8, mk_u8}
-c08_t! {c08_chunks_exact_u8_rev_big, chunks_exact, rev, sized2, u8, mk_u8}
+c08_t! {c08_chunks_exact_u8_fwd_big, chunks_exact, fwd, sized2, u8, mk_u8} // tier=quick
+c08_t! {c08_chunks_exact_u8_rev_big, chunks_exact, rev, sized2, u8, mk_u8} // tier=quick
 c08_t! {c08_chunks_exact_n1_u8_fwd_big, chunks_exact, fwd, size1, u8, mk_u8}
 c08_t! {c08_chunks_exact_n1_u8_rev_big, chunks_exact, rev, size1, u8, mk_u8}
-c08_t! {c08_rchunks_exact_u8_fwd_big, rchunks_exact, fwd, sized2, u8, mk_u8}
-c08_t! {c08_rchunks_exact_u8_rev_big, rchunks_exact, rev, sized2, u8, mk_u8}
+c08_t! {c08_rchunks_exact_u8_fwd_big, rchunks_exact, fwd, sized2, u8, mk_u8} // tier=quick
+c08_t! {c08_rchunks_exact_u8_rev_big, rchunks_exact, rev, sized2, u8, mk_u8} // tier=quick
 c08_t! {c08_rchunks_exact_n1_u8_fwd_big, rchunks_exact, fwd, size1, u8, mk_u8}
 c08_t! {c08_rchunks_exact_n1_u8_rev_big, rchunks_exact, rev, size1, u8, mk_u8}
-c08_t! {c08_array_chunks3_u8_fwd_big, array_chunks 3, fwd, unsized, u8, mk_u8}
-c08_t! {c08_array_chunks3_u8_rev_big, array_chunks 3, rev, unsized, u8, mk_u8}
-c08_t! {c08_array_chunks4_u8_fwd_big, array_chunks 4, fwd, unsized, u8, mk_u8}
-c08_t! {c08_array_chunks4_u8_rev_big, array_chunks 4, rev, unsized, u8, mk_u8}
-
-// ---------------------------------------------------------------------------
+c08_t! {c08_array_chunks3_u8_fwd_big, array_chunks 3, fwd, unsized, u8, mk_u8} // tier=quick
+c08_t! {c08_array_chunks3_u8_rev_big, array_chunks 3, rev, unsized, u8, mk_u8} // tier=quick
+c08_t! {c08_array_chunks4_u8_fwd_big, array_chunks 4, fwd, unsized, u8, mk_u8} // tier=quick
+c08_t! {c08_array_chunks4_u8_rev_big, array_chunks 4, rev, unsized, u8, mk_u8} // --------------------------------------------------------------------------- tier=quick
 // the element iterator as produced by konst's `into_iter!` conversion of slices / array references
 
 harness! {
